@@ -22,7 +22,7 @@ CHECKS = {
             dict(name="portable", target="h_hash", args=["--prop", "C01", "--expect", "portable"],
                  cpu=["X86_CPUID", "X86_CPUID_COUNT"]),
         ],
-        deadline=dict(quick=150, thorough=600),
+        deadline=dict(quick=300, thorough=900),
         parallel_runs=1,
         bounds=dict(
             quick="contents {LCG, 0x00.., 0xff..}; SHA-256/SHA-1/MD5: fixed point over raw contexts, message length <= 1000, Update sizes 0..200; "
